@@ -635,14 +635,20 @@ fn kitty_image_id(img: &Image) -> u64 {
 /// In general this identification is just represents individual placement
 /// but in particular implementation it is bound to a physical position on
 /// the screen.
+///
+/// Zero is not a valid placement id (the protocol reads it as "unspecified"),
+/// so identifiers are in the range `1..=KITTY_MAX_ID`. There is one position
+/// more than there are identifiers: the very last one shares the largest id.
 fn kitty_placement_id(pos: Position) -> u64 {
-    (pos.row as u64 % KITTY_MAX_DIM) + (pos.col as u64 % KITTY_MAX_DIM) * KITTY_MAX_DIM
+    let index = (pos.row as u64 % KITTY_MAX_DIM) + (pos.col as u64 % KITTY_MAX_DIM) * KITTY_MAX_DIM;
+    index.min(KITTY_MAX_ID - 1) + 1
 }
 
 fn kitty_placement_to_pos(placement_id: u64) -> Position {
+    let index = placement_id.saturating_sub(1);
     Position {
-        col: (placement_id / KITTY_MAX_DIM) as usize,
-        row: (placement_id % KITTY_MAX_DIM) as usize,
+        col: (index / KITTY_MAX_DIM) as usize,
+        row: (index % KITTY_MAX_DIM) as usize,
     }
 }
 
